@@ -109,6 +109,12 @@ class Bundle:
         Runs the given instructor control script on the given submission, with the
         accompany contextualizations.
         """
+        # Warning filters that the script or the submission changes end with
+        # this grading instead of deciding how later submissions are parsed
+        with warnings.catch_warnings():
+            self._run_ics_bundle(resolver, skip_tifa, skip_run)
+
+    def _run_ics_bundle(self, resolver, skip_tifa, skip_run):
         ics_args = [self.submission, self.environment]
         captured_output = StringIO()
         global_data = {}
